@@ -7,6 +7,7 @@ import (
 	"fmt"
 	"io"
 	"sort"
+	"strings"
 
 	"seehuhn.de/go/pdf"
 	"seehuhn.de/go/pdf/zzverif/checks/hx"
@@ -629,7 +630,7 @@ func (ck *checker) plainValue(o Obj, j int, tv pdf.Object, where string) {
 			ck.unspecified++
 			return
 		}
-		tag := "stream=" + stmNames[o.V] + ";" + ck.cfgTag()
+		tag := "stream=" + stmTag(o.V) + ";" + ck.cfgTag()
 		if stmRawOnly(o.V) {
 			// opaque data that nothing decodes (in the source either): as long
 			// as the target declares the same filter chain, the same decoded
@@ -652,15 +653,74 @@ func (ck *checker) plainValue(o Obj, j int, tv pdf.Object, where string) {
 		}
 		data, err := ck.tr.streamData(stm)
 		if err != nil {
-			ck.f.add("stream-undecodable:"+tag, "%s: stream does not decode in the target: %v (dict %s)", where, err, hx.Show(stm.Dict))
+			if fp, note := ck.chainDiagnosis(o, stm.Dict); fp != "" {
+				ck.f.add(fp, "%s: stream does not decode in the target: %v; %s [stream-undecodable:%s]", where, err, note, tag)
+				return
+			}
+			ck.f.add("stream-undecodable:"+tag, "%s: stream does not decode in the target: %v (source stream %s, target dict %s)", where, err, stmName(o.V), hx.Show(stm.Dict))
 			return
 		}
 		if want := plainData(j, o.V); !bytes.Equal(data, want) {
-			ck.f.add("stream-bytes-differ:"+tag, "%s: stream decodes to %d bytes %q..., want %d bytes %q...", where, len(data), head(data), len(want), head(want))
+			if fp, note := ck.chainDiagnosis(o, stm.Dict); fp != "" {
+				ck.f.add(fp, "%s: stream decodes to %d bytes %q..., want %d bytes %q...; %s [stream-bytes-differ:%s]", where, len(data), head(data), len(want), head(want), note, tag)
+				return
+			}
+			ck.f.add("stream-bytes-differ:"+tag, "%s: stream decodes to %d bytes %q..., want %d bytes %q... (source stream %s, target dict %s)", where, len(data), head(data), len(want), head(want), stmName(o.V), hx.Show(stm.Dict))
 		}
 	case 'r':
 		ck.item(o.It[0], j, 0, tv, where)
 	}
+}
+
+// chainDiagnosis narrows the fingerprint of a stream of the filter-chain family
+// whose decoded bytes are wrong (it takes no part in the judgement: a stream
+// fails by its decoded bytes only). If the target stream still names the same
+// filters, the parameter entry of every position is compared with the source's
+// by what it amounts to (the predictor dictionary, an empty dictionary, null;
+// direct or behind a reference; an empty dictionary and null mean the same):
+// the first position that differs names the class, "decodeparms-changed:
+// null-became-dict". fp = "": /Filter and /DecodeParms explain nothing.
+func (ck *checker) chainDiagnosis(o Obj, d pdf.Dict) (fp, note string) {
+	cs, ok := chainOf(o.V)
+	if !ok {
+		return "", ""
+	}
+	names, parms, ok := filterLayout(func(x pdf.Object) (pdf.Object, bool) {
+		for i := 0; i < 8; i++ {
+			ref, isRef := x.(pdf.Reference)
+			if !isRef {
+				return x, true
+			}
+			v, err := ck.tr.Get(ref, true)
+			if err != nil {
+				return nil, false
+			}
+			x = v
+		}
+		return nil, false
+	}, d)
+	if !ok || len(names) != len(cs.chain) {
+		return "", ""
+	}
+	for i, n := range names {
+		if string(n) != chainLongNames[cs.chain[i]] {
+			return "", ""
+		}
+	}
+	var src, tgt []string
+	for i := range names {
+		src = append(src, cs.entryKind(i))
+		tgt = append(tgt, parmKind(parms[i]))
+	}
+	for i := range names {
+		if src[i] == tgt[i] || src[i] != "dict" && tgt[i] != "dict" {
+			continue
+		}
+		return "decodeparms-changed:" + src[i] + "-became-" + tgt[i],
+			fmt.Sprintf("the parameter entry of filter %d (/%s) was %s in the source and is %s in the target: source /Filter %v /DecodeParms [%s] (%s), target /DecodeParms [%s] (stream dictionary %s)",
+				i, names[i], src[i], tgt[i], names, strings.Join(src, " "), stmName(o.V), strings.Join(tgt, " "), hx.Show(d))
+	}
+	return "", ""
 }
 
 // sameFilterChain: the direct /Filter value got names the same filters as want
